@@ -35,6 +35,7 @@ type HarnessSpec struct {
 	NoReplay bool           `json:"no_replay,omitempty"` // counterexamples cannot be replayed natively (engine-only model)
 	Witness  int            `json:"witness,omitempty"`   // number of reach-witness models replayed natively
 	NoAsserts bool          `json:"no_asserts,omitempty"` // the harness has only implicit (panic) obligations
+	FP        bool          `json:"fp,omitempty"`         // floating-point terms reach the solver (no QF_BV logic)
 }
 
 type KnownFinding struct {
@@ -228,6 +229,13 @@ func LoadEngine(hdir string) (*Engine, error) {
 	return e, nil
 }
 
+func logicOf(h *HarnessSpec) string {
+	if h.FP {
+		return ""
+	}
+	return "QF_BV"
+}
+
 func (e *Engine) loadKnown(path, prop string) {
 	b, err := os.ReadFile(path)
 	if err != nil {
@@ -363,7 +371,7 @@ func (e *Engine) RunHarness(h *HarnessSpec, workers int, deadline time.Time, wit
 					s.Close()
 				}
 				pool = NewPool()
-				s = NewSolver("z3", e.timeout)
+				s = NewSolver("z3", e.timeout, logicOf(h))
 				npaths = 0
 			}
 			reset()
@@ -456,7 +464,7 @@ func (e *Engine) RunHarness(h *HarnessSpec, workers int, deadline time.Time, wit
 func (e *Engine) runPath(h *HarnessSpec, fn *ssa.Function, pool *TermPool, s *Solver, prefix []Decision, witnessN int) (ex *Exec) {
 	ex = &Exec{eng: e, pool: pool, s: s, h: h, globals: map[*ssa.Global]*Cell{}, decisions: prefix,
 		loopCnt: map[*ssa.BasicBlock]int{}, reaches: map[string]int{}, assumes: map[string]int{}, asserts: map[string]int{},
-		crcMsg: map[*Term]crcMessage{}, locks: map[*Cell]*lockState{}, funcs: map[string]bool{}, inited: map[*ssa.Package]bool{}}
+		crcMsg: map[*Term]crcMessage{}, ackApps: map[string][]ackApp{}, ackSeen: map[*Term]bool{}, locks: map[*Cell]*lockState{}, funcs: map[string]bool{}, inited: map[*ssa.Package]bool{}}
 	s.Push()
 	defer func() {
 		if r := recover(); r != nil {
@@ -538,7 +546,14 @@ func (ex *Exec) modelFor(c *Term) ([]uint64, []ObsVal, bool) {
 	}
 	ex.s.send(sb.String())
 	defer ex.s.Pop()
+	t0 := time.Now()
 	r := ex.s.Check()
+	if d := time.Since(t0); d > 2*time.Second {
+		if dir := os.Getenv("GOSMT_SLOWLOG"); dir != "" {
+			os.MkdirAll(dir, 0755)
+			os.WriteFile(filepath.Join(dir, fmt.Sprintf("slowmodel-%d-%s.smt2", time.Now().UnixNano(), r)), []byte(standalone(append(append([]*Term{}, ex.pc...), c))), 0644)
+		}
+	}
 	if r != "sat" {
 		if r == "unknown" {
 			ex.incomplete = "solver unknown/timeout"
